@@ -640,7 +640,7 @@ fn main() {
     });
     let t0 = Instant::now();
     let machinery: Mutex<Option<String>> = Mutex::new(None);
-    let budget_s: f64 = std::env::var("VERIF_BUDGET_S").ok().and_then(|s| s.parse().ok()).unwrap_or(tier.pick(300.0, 6.0 * 3600.0));
+    let budget_s: f64 = std::env::var("VERIF_BUDGET_S").ok().and_then(|s| s.parse().ok()).unwrap_or(tier.pick(300.0, 1200.0));
     mc_core::par_for_each(&scenarios, |_, scn| {
         if t0.elapsed().as_secs_f64() > budget_s {
             let mut p = Partial::new();
